@@ -6,6 +6,8 @@ open Neutrino.GetCFilter
 #print axioms C05_sound_partial
 #print axioms C05_reject
 #print axioms C05_progress_iff
+#print axioms C05_target_by_hash
+#print axioms C05_reorged_target_fails
 #print axioms C05_duplicate_rejected
 #print axioms C05_complete_all_received
 #print axioms C05_fail_closed
